@@ -132,6 +132,8 @@ def analyse_engine(ctx: Ctx, ci, f, cfg, in_loop):
             if is_ext_engine:
                 consumers.append((n, c, list(c.args)))
             elif is_step and c.args:
+                if isinstance(c.args[0], ast.Name) and c.args[0].id not in _free_locals(n.ast, selfn):
+                    continue  # a comprehension variable: one point handed to the objective, not the parents of a generation
                 consumers.append((n, c, [c.args[0]]))
     if not consumers:
         obs.append(ctx.ob("R11.1", f, step_node.stmt, status=INCONCLUSIVE, detail=f"{ci.name}: no parent-consuming engine call recognised in the generation loop", construct=step_node.label))
@@ -502,7 +504,7 @@ def r11_6(ctx: Ctx):
     generation list registered by other code - e.g. a repeated metaepoch - is not bred from the generation recorded before it)."""
     from .common import foreign_history_writes
 
-    return foreign_history_writes(ctx, "R11.6", "the generations it registers were not bred from the generation recorded before them, nor newly evaluated")
+    return foreign_history_writes(ctx, "R11.6", "the generations it registers were not bred from the generation recorded before them, nor newly evaluated", carry_ok=True)
 
 
 RULES = [("R11", r11, 12), ("R11.4", r11_4, 2), ("R11.5", r11_5, 16), ("R11.6", r11_6, 1), ("R11.7", r11_7, 2)]
